@@ -1,4 +1,4 @@
-import Tv.GenAgg
+import Tv.Thm.C11GenA
 import Tv.Lemmas.GenSim
 import Tv.Thm.C11
 import Mathlib.Tactic.Ring
@@ -19,158 +19,13 @@ hand-written model (`*_agree` / `*_eq`, fold-fusion lemmas `vapplyN_pow2/3`, `fo
 through the C11 theorems, with the textbook definition over the non-null elements (`*_spec`).
 `vskew` (zero test on a `sqrt` expression) and `vcorr_pearson` (closed form rewritten under the
 root sign in the model) are proved up to the mask / branch structure; their values are compared
-by the correspondence run.  Not translated: `vargmax`/`vargmin` (untyped `None` initialisers and
-`if let Some(Ordering::…)` patterns), `vfirst`/`vlast`/`vany`/`vall`/`vcount_value` (std `find`,
-boolean elements), the plain `AggBasic` trait, tea-agg's `AggValidExt`.
+by the correspondence run.  Also regenerated and proved equal to the model: `count_valid`, `vfirst`, `vlast`, `vcount_value`,
+`vargmax`, `vargmin` (agg.rs) and `vkurt` (tea-agg/src/lib.rs, value for value).  Not translated:
+`vany`/`vall` (boolean elements), the plain `AggBasic` trait, the masked aggregations and
+`vpercentile_of` of tea-agg.  The moment aggregations are in `C11GenA.lean`.
 -/
 namespace Tv.C11Gen
 open Tv Tv.GenSim Tv.C11
-
-theorem eps_eq : GenAgg.EPS = C11.EPS := by norm_num [GenAgg.EPS, C11.EPS]
-
-/-- the prelude's reading of `vfold_n` is the model's -/
-theorem vfoldN_eq {σ : Type} (f : σ → Rat → σ) (init : σ) (xs : List (Option Rat)) :
-    Gen.vfoldN f init xs = C11.vfoldN f init xs := by
-  unfold Gen.vfoldN C11.vfoldN
-  congr 1
-  funext p v
-  cases v <;> rfl
-
-theorem vfold_eq {σ : Type} (f : σ → Rat → σ) (init : σ) (xs : List (Option Rat)) :
-    Gen.vfold f init xs = C11.vfold f init xs := by
-  unfold Gen.vfold C11.vfold
-  congr 1
-  funext p v
-  cases v <;> rfl
-
-theorem vsum_agree (sqrt : Rat → Rat) (xs : List (Option Rat)) :
-    Agree sqrt (GenAgg.vsum.run sqrt xs) (C11.vsum xs) := by
-  simp only [GenAgg.vsum.run, C11.vsum, vfoldN_eq]
-  generalize C11.vfoldN (fun acc x => acc + x) (0 : Rat) xs = p
-  obtain ⟨n, s⟩ := p
-  by_cases h : n ≥ 1 <;> simp [h, Agree]
-
-theorem vmean_agree (sqrt : Rat → Rat) (xs : List (Option Rat)) :
-    Agree sqrt (GenAgg.vmean.run sqrt xs) (C11.vmean xs) := by
-  simp only [GenAgg.vmean.run, C11.vmean, vfoldN_eq]
-  generalize C11.vfoldN (fun acc x => acc + x) (0 : Rat) xs = p
-  obtain ⟨n, s⟩ := p
-  by_cases h : n ≥ 1 <;> simp [h, Agree]
-
-/-- componentwise agreement of a pair of results -/
-def Agree2 (sqrt : Rat → Rat) (o : Option Rat × Option Rat) (t : Out × Out) : Prop :=
-  Agree sqrt o.1 t.1 ∧ Agree sqrt o.2 t.2
-
-/-- a `vapply_n` closure that accumulates `Σv, Σv²` computes the model's power sums -/
-theorem vapplyN_pow2 (f : Rat × Rat → Rat → Rat × Rat) (hf : ∀ a b v, f (a, b) v = (a + v, b + v * v))
-    (xs : List (Option Rat)) :
-    Gen.vapplyN f (0, 0) xs = (((pows xs).s1, (pows xs).s2), (pows xs).n) := by
-  unfold Gen.vapplyN pows
-  have e0 : (((0 : Rat), (0 : Rat)), 0) = ((Pow.zero.s1, Pow.zero.s2), Pow.zero.n) := rfl
-  rw [e0]
-  generalize Pow.zero = s
-  induction xs generalizing s with
-  | nil => rfl
-  | cons v xs ih =>
-    cases v with
-    | none => exact ih s
-    | some x =>
-      rw [List.foldl_cons, List.foldl_cons]
-      show List.foldl _ (f _ x, s.n + 1) xs = _
-      rw [hf]
-      exact ih ⟨s.n + 1, s.s1 + x, s.s2 + x * x, s.s3 + x * x * x, s.s4 + (x * x) * (x * x)⟩
-
-theorem vapplyN_pow3 (f : Rat × Rat × Rat → Rat → Rat × Rat × Rat)
-    (hf : ∀ a b c v, f (a, b, c) v = (a + v, b + v * v, c + v * v * v))
-    (xs : List (Option Rat)) :
-    Gen.vapplyN f (0, 0, 0) xs = (((pows xs).s1, (pows xs).s2, (pows xs).s3), (pows xs).n) := by
-  unfold Gen.vapplyN pows
-  have e0 : (((0 : Rat), (0 : Rat), (0 : Rat)), 0) = ((Pow.zero.s1, Pow.zero.s2, Pow.zero.s3), Pow.zero.n) := rfl
-  rw [e0]
-  generalize Pow.zero = s
-  induction xs generalizing s with
-  | nil => rfl
-  | cons v xs ih =>
-    cases v with
-    | none => exact ih s
-    | some x =>
-      rw [List.foldl_cons, List.foldl_cons]
-      show List.foldl _ (f _ x, s.n + 1) xs = _
-      rw [hf]
-      exact ih ⟨s.n + 1, s.s1 + x, s.s2 + x * x, s.s3 + x * x * x, s.s4 + (x * x) * (x * x)⟩
-
-theorem vmean_var_agree (sqrt : Rat → Rat) (xs : List (Option Rat)) (mp : Nat) :
-    Agree2 sqrt (GenAgg.vmean_var.run sqrt xs mp) (C11.vmeanVar mp xs) := by
-  unfold GenAgg.vmean_var.run
-  simp only []
-  rw [vapplyN_pow2 _ (fun a b v => by first | rfl | (simp only [pow_two]) | (simp [pow_two, pow_succ]; try ring)) xs]
-  simp only [C11.vmeanVar, Agree2, eps_eq, decide_eq_true_eq, sq, Pow.pvar]
-  generalize pows xs = s
-  by_cases h1 : s.n < mp
-  · simp [h1, Agree]
-  · simp only [h1, if_false]
-    by_cases h2 : s.n < 2
-    · simp only [h2, if_true, Out.div]
-      refine ⟨?_, rfl⟩
-      split_ifs <;> first | trivial | rfl
-    · simp only [h2, if_false, Out.div]
-      have hn : (s.n : Rat) ≠ 0 := by
-        have : 2 ≤ s.n := by omega
-        exact_mod_cast (by omega : s.n ≠ 0)
-      simp only [hn, if_false]
-      split_ifs <;> exact ⟨rfl, rfl⟩
-
-theorem vvar_agree (sqrt : Rat → Rat) (xs : List (Option Rat)) (mp : Nat) :
-    Agree sqrt (GenAgg.vvar.run sqrt xs mp) (C11.vvar mp xs) :=
-  (vmean_var_agree sqrt xs mp).2
-
-theorem vvar_not_root (mp : Nat) (xs : List (Option Rat)) (sg : Int) (q : Rat) : C11.vvar mp xs ≠ .root sg q := by
-  unfold C11.vvar C11.vmeanVar
-  simp only []
-  split_ifs <;> simp
-
-theorem vstd_agree (sqrt : Rat → Rat) (xs : List (Option Rat)) (mp : Nat) :
-    Agree sqrt (GenAgg.vstd.run sqrt xs mp) (C11.vstd mp xs) := by
-  have h := vvar_agree sqrt xs mp
-  have hr := vvar_not_root mp xs
-  unfold GenAgg.vstd.run C11.vstd
-  simp only []
-  generalize GenAgg.vvar.run sqrt xs mp = o at h ⊢
-  generalize C11.vvar mp xs = t at h hr ⊢
-  cases t with
-  | root sg q => exact absurd rfl (hr sg q)
-  | null => simp_all [Agree, sqrtOut]
-  | degen => simp_all [Agree, sqrtOut]
-  | val q => simp_all [Agree, sqrtOut]
-
-theorem ite_ne {α : Type} (c : Prop) [Decidable c] (a b z : α) (ha : a ≠ z) (hb : b ≠ z) :
-    (if c then a else b) ≠ z := by
-  split_ifs <;> assumption
-
-/-- mask agreement: the generated result is the NaN literal exactly where the model is null -/
-def AgreeMask (o : Option Rat) (t : Out) : Prop := t = .null ↔ o = none
-
-/-- `vskew`: the closed form is rewritten under the root sign in the model and its zero test
-(`res != 0.`) is a statement about `sqrt`; proved here: the result is NaN exactly below
-`max(min_periods, 3)` valid elements (values: correspondence run) -/
-theorem vskew_mask (sqrt : Rat → Rat) (xs : List (Option Rat)) (mp : Nat) :
-    AgreeMask (GenAgg.vskew.run sqrt xs mp) (C11.vskew mp xs) := by
-  unfold GenAgg.vskew.run
-  simp only []
-  rw [vapplyN_pow3 _ (fun a b c v => by first | rfl | (simp only [pow_two]) | (simp [pow_two, pow_succ]; try ring)) xs]
-  simp only [C11.vskew, eps_eq, decide_eq_true_eq, sq, Pow.pvar, AgreeMask]
-  generalize pows xs = s
-  by_cases h1 : s.n < mp
-  · simp [h1]
-  · by_cases h2 : s.n ≥ 3
-    · simp only [h1, h2, if_false, if_true]
-      by_cases h3 : s.s2 / ↑s.n - s.s1 / ↑s.n * (s.s1 / ↑s.n) ≤ EPS
-      · simp [h3]
-      · simp only [h3, if_false]
-        constructor
-        · intro h; exact absurd h (ite_ne _ _ _ _ (by simp) (by simp))
-        · intro h; exact absurd h (ite_ne _ _ _ _ (by simp) (by simp))
-    · simp [h1, h2]
 
 theorem vmax_eq (sqrt : Rat → Rat) (xs : List (Option Rat)) : GenAgg.vmax.run sqrt xs = C11.vmax xs := by
   unfold GenAgg.vmax.run C11.vmax
@@ -296,10 +151,148 @@ theorem vcorr_spec (sqrt : Rat → Rat) (xs ys : List (Option Rat)) (mp : Nat) :
     AgreeW (GenAgg.vcorr_pearson.run sqrt xs ys mp) (Spec.vcorr mp xs ys) := by
   rw [← C11.vcorr_exact]; exact vcorr_agree sqrt xs ys mp
 
-/-- all eleven functions were found and translated (an unparsed one has no `run`, which breaks
+/-! ## counts, first / last valid, arg-extrema (agg.rs) and `vkurt` (tea-agg/src/lib.rs) -/
+
+
+theorem count_valid_eq (sqrt : Rat → Rat) (xs : List (Option Rat)) :
+    GenAgg.count_valid.run sqrt xs = C11.countValid xs := by
+  simp only [GenAgg.count_valid.run, C11.countValid, vfoldN_eq]
+
+theorem vfirst_eq (sqrt : Rat → Rat) (xs : List (Option Rat)) :
+    GenAgg.vfirst.run sqrt xs = C11.vfirst xs := rfl
+
+theorem vlast_eq (sqrt : Rat → Rat) (xs : List (Option Rat)) :
+    GenAgg.vlast.run sqrt xs = C11.vlast xs := rfl
+
+theorem vcount_value_eq (sqrt : Rat → Rat) (xs : List (Option Rat)) (value : Option Rat) :
+    GenAgg.vcount_value.run sqrt xs value = C11.vcountValue value xs := by
+  cases value with
+  | none => simp [GenAgg.vcount_value.run, C11.vcountValue]
+  | some c => simp [GenAgg.vcount_value.run, C11.vcountValue, vfold_eq]
+
+theorem cmpRat_gt (a b : Rat) : (Gen.cmpRat a b = .gt) ↔ a > b := by
+  unfold Gen.cmpRat
+  by_cases h1 : a < b
+  · simp [h1]; exact le_of_lt h1
+  · by_cases h2 : a = b
+    · simp [h2]
+    · simp [h1, h2]; exact lt_of_le_of_ne (not_lt.mp h1) (Ne.symm h2)
+
+theorem cmpRat_lt (a b : Rat) : (Gen.cmpRat a b = .lt) ↔ a < b := by
+  unfold Gen.cmpRat
+  by_cases h1 : a < b
+  · simp [h1]
+  · by_cases h2 : a = b <;> simp [h1, h2]
+
+/-- a `for_each` closure keeping `(best, best index, current index)` -/
+theorem fold_arg (step : ArgSt → Option Rat → ArgSt)
+    (F : Option Rat × Option Nat × Nat → Option Rat → Option Rat × Option Nat × Nat)
+    (hF : ∀ a b c v, F (a, b, c) v = ((step ⟨a, b, c⟩ v).best, (step ⟨a, b, c⟩ v).idx, (step ⟨a, b, c⟩ v).cur))
+    (xs : List (Option Rat)) (s : ArgSt) :
+    List.foldl F (s.best, s.idx, s.cur) xs =
+      ((xs.foldl step s).best, (xs.foldl step s).idx, (xs.foldl step s).cur) := by
+  induction xs generalizing s with
+  | nil => rfl
+  | cons v xs ih =>
+    rw [List.foldl_cons, List.foldl_cons, hF]
+    exact ih (step s v)
+
+theorem vargmax_eq (sqrt : Rat → Rat) (xs : List (Option Rat)) :
+    GenAgg.vargmax.run sqrt xs = C11.vargmax xs := by
+  unfold GenAgg.vargmax.run C11.vargmax
+  simp only []
+  rw [fold_arg vargmaxStep _ (by
+    intro a b c v
+    cases v with
+    | none => simp [vargmaxStep]
+    | some x =>
+      cases a with
+      | none => simp [vargmaxStep]
+      | some m =>
+        by_cases h : x > m
+        · simp [vargmaxStep, h, (cmpRat_gt x m).mpr h]
+        · have : ¬ Gen.cmpRat x m = .gt := fun hc => h ((cmpRat_gt x m).mp hc)
+          simp [vargmaxStep, h, this]) xs ⟨none, none, 0⟩]
+
+theorem vargmin_eq (sqrt : Rat → Rat) (xs : List (Option Rat)) :
+    GenAgg.vargmin.run sqrt xs = C11.vargmin xs := by
+  unfold GenAgg.vargmin.run C11.vargmin
+  simp only []
+  rw [fold_arg vargminStep _ (by
+    intro a b c v
+    cases v with
+    | none => simp [vargminStep]
+    | some x =>
+      cases a with
+      | none => simp [vargminStep]
+      | some m =>
+        by_cases h : x < m
+        · simp [vargminStep, h, (cmpRat_lt x m).mpr h]
+        · have : ¬ Gen.cmpRat x m = .lt := fun hc => h ((cmpRat_lt x m).mp hc)
+          simp [vargminStep, h, this]) xs ⟨none, none, 0⟩]
+
+theorem vapplyN_pow4 (f : Rat × Rat × Rat × Rat → Rat → Rat × Rat × Rat × Rat)
+    (hf : ∀ a b c d v, f (a, b, c, d) v = (a + v, b + v * v, c + v * v * v, d + (v * v) * (v * v)))
+    (xs : List (Option Rat)) :
+    Gen.vapplyN f (0, 0, 0, 0) xs = (((pows xs).s1, (pows xs).s2, (pows xs).s3, (pows xs).s4), (pows xs).n) := by
+  unfold Gen.vapplyN pows
+  have e0 : (((0 : Rat), (0 : Rat), (0 : Rat), (0 : Rat)), 0) =
+      ((Pow.zero.s1, Pow.zero.s2, Pow.zero.s3, Pow.zero.s4), Pow.zero.n) := rfl
+  rw [e0]
+  generalize Pow.zero = s
+  induction xs generalizing s with
+  | nil => rfl
+  | cons v xs ih =>
+    cases v with
+    | none => exact ih s
+    | some x =>
+      rw [List.foldl_cons, List.foldl_cons]
+      show List.foldl _ (f _ x, s.n + 1) xs = _
+      rw [hf]
+      exact ih ⟨s.n + 1, s.s1 + x, s.s2 + x * x, s.s3 + x * x * x, s.s4 + (x * x) * (x * x)⟩
+
+/-- `vkurt` (tea-agg/src/lib.rs) regenerated = the model's `vkurt`, value for value -/
+theorem vkurt_agree (sqrt : Rat → Rat) (xs : List (Option Rat)) (mp : Nat) :
+    Agree sqrt (GenAgg.vkurt.run sqrt xs mp) (C11.vkurt mp xs) := by
+  unfold GenAgg.vkurt.run
+  simp only []
+  rw [vapplyN_pow4 _ (fun a b c d v => by first | rfl | (simp only [pow_two]) | (simp [pow_two, pow_succ]; try ring)) xs]
+  simp only [C11.vkurt, eps_eq, decide_eq_true_eq, sq, Pow.pvar]
+  generalize pows xs = s
+  by_cases h1 : s.n < mp
+  · simp [h1, Agree]
+  · by_cases h2 : s.n ≥ 4
+    · simp only [h1, h2, if_false, if_true]
+      by_cases h3 : s.s2 / ↑s.n - s.s1 / ↑s.n * (s.s1 / ↑s.n) ≤ EPS
+      · simp [h3, Agree]
+      · simp only [h3, if_false]
+        split_ifs <;> simp_all [Agree]
+    · simp [h1, h2, Agree]
+
+theorem vkurt_spec (sqrt : Rat → Rat) (xs : List (Option Rat)) (mp : Nat) :
+    Agree sqrt (GenAgg.vkurt.run sqrt xs mp) (Spec.vkurt mp xs) := by
+  rw [← C11.vkurt_exact]; exact vkurt_agree sqrt xs mp
+theorem count_valid_spec (sqrt : Rat → Rat) (xs : List (Option Rat)) :
+    GenAgg.count_valid.run sqrt xs = Spec.countValid xs := by
+  rw [count_valid_eq, C11.count_valid_exact]
+theorem vfirst_spec (sqrt : Rat → Rat) (xs : List (Option Rat)) :
+    GenAgg.vfirst.run sqrt xs = (Spec.firstValid xs).map some := by
+  rw [vfirst_eq, C11.vfirst_exact]
+theorem vlast_spec (sqrt : Rat → Rat) (xs : List (Option Rat)) :
+    GenAgg.vlast.run sqrt xs = (Spec.lastValid xs).map some := by
+  rw [vlast_eq, C11.vlast_exact]
+theorem vcount_value_spec (sqrt : Rat → Rat) (xs : List (Option Rat)) (value : Option Rat) :
+    GenAgg.vcount_value.run sqrt xs value = Spec.countValue value xs := by
+  rw [vcount_value_eq, C11.vcount_value_exact]
+theorem vargmax_spec (sqrt : Rat → Rat) (xs : List (Option Rat)) : GenAgg.vargmax.run sqrt xs = Spec.vargmax xs := by
+  rw [vargmax_eq, C11.vargmax_exact]
+theorem vargmin_spec (sqrt : Rat → Rat) (xs : List (Option Rat)) : GenAgg.vargmin.run sqrt xs = Spec.vargmin xs := by
+  rw [vargmin_eq, C11.vargmin_exact]
+
+/-- all eighteen functions were found and translated (an unparsed one has no `run`, which breaks
 the theorems above; one that disappears breaks this) -/
 theorem functions_present :
     GenAgg.functions = ["vsum", "vmean", "vmean_var", "vvar", "vstd", "vskew", "vmax", "vmin", "count_none",
-      "vcov", "vcorr_pearson"] := rfl
+      "vcov", "vcorr_pearson", "count_valid", "vfirst", "vlast", "vcount_value", "vargmax", "vargmin", "vkurt"] := rfl
 
 end Tv.C11Gen
